@@ -94,7 +94,7 @@ const WORDS: &[&str] = &[
 ];
 const UWORDS: &[&str] = &["é1", "дата", "名前", "ünï"];
 const MNAMES: &[&str] = &[
-    "m1", "mac_a", "u2x", "do_it", "calc1", "m_2", "util9", "x_y", "Zap", "zed_1", "Q", "mbcdefghijklmnopqrstuvwxyzabcdefg",
+    "m1", "mac_a", "u2x", "do_it", "calc1", "m_2", "util9", "x_y", "Zap", "zed_1", "Q", "mbcdefghijklmnopqrstuvwxyzabcdefg", "_n", "_sfx1", "__",
     "n234567890123456789012345678901234567890123456789012345678901234",
 ];
 const FUNCS: &[&str] = &["sum", "max", "cats", "putn", "inputn", "today", "substr"];
@@ -1518,6 +1518,11 @@ impl G<'_> {
                             self.put(w);
                             self.mcall_p();
                         }
+                    }
+                    // the name may go on after the call
+                    if self.r.chance(1, 3) {
+                        let t = self.r.pick(&["2", "_x", "9z", "&sfx", "&sfx.1"]);
+                        self.put(t);
                     }
                 } else {
                     self.name_expr();
